@@ -1562,14 +1562,18 @@ pub fn reader_cut_body(ch: &Chooser, cases: &[RCase], n_cuts: usize, stride: &dy
         cuts.push((1 + k * st).min(len - 1));
         lo = k + 1;
     }
-    let pend = ch.free("pending-before-each-window", 2) == 1;
-    let src = CutReader::new(case.bytes.clone(), cuts.clone(), pend);
+    // 0: always ready; 1: a self-waking Pending before each window; 2 (readers on the async BGZF reader):
+    // the slow source of `cut.rs` with 2 workers — inflate tasks finish while the source is stalled mid-block
+    let mode = ch.free("pending-before-each-window", if case.workers_apply { 3 } else { 2 });
+    let pend = mode == 1;
+    let w = if mode == 2 { 2 } else { w };
+    let src = if mode == 2 { CutReader::new_slow(case.bytes.clone(), cuts.clone()) } else { CutReader::new(case.bytes.clone(), cuts.clone(), pend) };
     let delivered = src.log.clone();
     let mut cfg = RtConfig::new(w, CostModel::Delay);
     cfg.horizon = horizon(case);
     let caught = vmc::catch(|| vrt::run(ch, cfg, || vrt::block_on(async_drive(case, script, src, w))));
     let how = |info: Option<&vrt::RunInfo>| {
-        let mut s = format!("{} windows end at offsets {cuts:?}", describe(case, script, w, &format!("CutReader(pending_before_each_window={pend})")));
+        let mut s = format!("{} windows end at offsets {cuts:?}", describe(case, script, w, &format!("CutReader({})", match mode { 0 => "always ready", 1 => "self-waking Pending before each window", _ => "slow: stalls at the first window end until the delivery thread has run" })));
         let show = |b: &[u8]| if case.format.is_text() { format!("{:?}", String::from_utf8_lossy(b)) } else { vmc::hex(b) };
         if len <= 96 {
             s.push_str(&format!(" bytes={}", show(&case.bytes)));
